@@ -20,7 +20,8 @@ def universe():
     d1, d2 = datetime.datetime(2000, 1, 1), datetime.datetime(2000, 1, 1, 1, 0, 0, 5)
     sc = [None, True, False, np.bool_(True), 0, 1, 2, -1, np.int64(1), np.int32(2), 1.0, 2.5, -0.5, np.float64(1.0),
           np.float32(2.5), nan1, nan2, nan3, float('inf'), float('-inf')] + STRS[:7] + [d1, d2, datetime.datetime(1999, 12, 31, 23, 59, 59)]
-    co = [(), [], {}, dict(), list(), (1,), (1.0,), (nan1,), (nan2,), (None,), ('a',), [1], [nan1], ['a'], [None],
+    co = [(True,), (False,), (0,), [True], [1], (True, 'a'), (1, 'a'), {'k': True}, {'k': 0}, {'k': False},
+          (), [], {}, dict(), list(), (1,), (1.0,), (nan1,), (nan2,), (None,), ('a',), [1], [nan1], ['a'], [None],
           (1, 2), (1, nan1), (1, None), (nan1, 1), (nan2, 1), ('a', 1), (None, None), (2, 1), (1.0, 2),
           [1, 2], [1, 'a'], [None, 'a'], ['a', 'b'],
           {'k': 1}, {'k': nan1}, {'k': None}, {'j': 1}, {'k': 'a'}, {'j': 1, 'k': 2}, {'j': 1, 'k': nan1}, {'j': None, 'k': 2},
@@ -169,14 +170,18 @@ def run(ctx):
             w = rng.choice([1, 2, 3])
             xs = [["t", [rng.choice(sub) for _ in range(w)]] for _ in range(rng.choice([2, 4, 7]))]
         obs.append(sort_obs(xs, rng.choice(['sort', 'Cmp'])))
-        rows = [{'a': rng.choice(sub), 'b': rng.choice(sub), 'id': ["i", k + 1]} for k in range(rng.choice([0, 1, 2, 4, 8, 15]))]
+        rows = [{'a': rng.choice(sub), 'b': rng.choice(sub), 'id': ["i", k + 1]} for k in range(rng.choice([0, 1, 2, 2, 3, 4, 8, 15]))]
         by = rng.choice([['a'], ['b'], ['a', 'b'], ['b', 'a'], ['fn', 'swap'], ['fn', 'const'], ['fn', 'pair'], []])
         obs.append(dsort_obs(rows, by))
         hashable = [v for v in sub]
         orders = []
         for c in rng.sample(['a', 'b'], rng.choice([1, 2])):
-            k = rng.choice([0, 1, 2, min(3, len(hashable))])
-            orders.append([c, rng.sample(hashable, k)])
+            k = min(rng.choice([0, 1, 2, 3, 5, 8]), len(hashable))
+            vs = []
+            for t in rng.sample(hashable, k):      # listed values are distinct as a dict sees them (1 and 1.0 are one key)
+                if not any(untag(t) == untag(u) for u in vs):
+                    vs.append(t)
+            orders.append([c, vs])
         obs.append(dsortval_obs(rows, orders))
         ctx.note(('c2s', i))
     ctx.evals += len(obs) + len(vals) ** 2
